@@ -248,6 +248,18 @@ func (cs *ConsensusState) OnStart() error {
 	// We may have lost some votes if the process crashed reload from consensus
 	// log to catchup.
 	if cs.doWALCatchup {
+		// A crash can leave a torn record at the end of the WAL file. It has to be cut before the
+		// replay appends anything: the replay finishes heights (and writes their #ENDHEIGHT markers)
+		// before it reaches the torn record, and a repair at that point cuts those markers too; and a
+		// replay that finds no marker to start from never reaches the torn record, which then stays
+		// in front of everything written from now on.
+		if walFileTornTail(cs.config.WalFile()) {
+			cs.Logger.Error("WAL file ends in a torn record, repairing before the catchup replay")
+			if err := cs.repairWAL(); err != nil {
+				return err
+			}
+		}
+
 		repairAttempted := false
 	LOOP:
 		for {
@@ -263,29 +275,8 @@ func (cs *ConsensusState) OnStart() error {
 			}
 
 			cs.Logger.Error("WAL file is corrupted, attempting repair", "err", err)
-
-			// 1) prep work
-			if err := cs.wal.Stop(); err != nil {
-				return err
-			}
 			repairAttempted = true
-
-			// 2) backup original WAL file
-			corruptedFile := fmt.Sprintf("%s.CORRUPTED", cs.config.WalFile())
-			if err := kos.CopyFile(cs.config.WalFile(), corruptedFile); err != nil {
-				return err
-			}
-			cs.Logger.Info("Backed up WAL file", "src", cs.config.WalFile(), "dst", corruptedFile)
-
-			// 3) try to repair (WAL file will be overwritten!)
-			if err := repairWalFile(corruptedFile, cs.config.WalFile()); err != nil {
-				cs.Logger.Error("WAL repair failed", "err", err)
-				return err
-			}
-			cs.Logger.Info("Successful repair")
-
-			// reload WAL file
-			if err := cs.loadWalFile(); err != nil {
+			if err := cs.repairWAL(); err != nil {
 				return err
 			}
 		}
@@ -1761,6 +1752,32 @@ func (cs *ConsensusState) handleTimeout(ti timeoutInfo, rs cstypes.RoundState) {
 	default:
 		panic(cmn.Fmt("Invalid timeout step: %v", ti.Step))
 	}
+}
+
+// repairWAL stops the WAL, keeps a copy of its file, rewrites the file up to the
+// first record that does not decode and opens it again.
+func (cs *ConsensusState) repairWAL() error {
+	// 1) prep work
+	if err := cs.wal.Stop(); err != nil {
+		return err
+	}
+
+	// 2) backup original WAL file
+	corruptedFile := fmt.Sprintf("%s.CORRUPTED", cs.config.WalFile())
+	if err := kos.CopyFile(cs.config.WalFile(), corruptedFile); err != nil {
+		return err
+	}
+	cs.Logger.Info("Backed up WAL file", "src", cs.config.WalFile(), "dst", corruptedFile)
+
+	// 3) try to repair (WAL file will be overwritten!)
+	if err := repairWalFile(corruptedFile, cs.config.WalFile()); err != nil {
+		cs.Logger.Error("WAL repair failed", "err", err)
+		return err
+	}
+	cs.Logger.Info("Successful repair")
+
+	// reload WAL file
+	return cs.loadWalFile()
 }
 
 // repairWalFile decodes messages from src (until the decoder errors) and
